@@ -38,7 +38,7 @@ Definition cert_authed (c : cfg) (s : tst) (k : ksched) : Prop :=
   exists alg sg k0,
     memz alg (f_sigalgs c) = true /\
     o_sig_verify O (hd [] (t_peer s)) alg (ks_cv_data O k0 SERVER_CONTEXT_STRING) sg = true /\
-    (f_verify c = true -> o_cert_ok O (f_server_name c) (t_peer s) = 0) /\
+    (f_verify c = true -> o_cert_ok O (verify_name c) (t_peer s) = 0) /\
     k_suite k0 = k_suite k /\
     prefix (client_hello_msg O c) (k_tr k0) /\
     prefix (k_tr k0) (k_tr k).
@@ -306,7 +306,7 @@ Proof.
   pose proof (ci_some c s I) as Hsome. rewrite Hs in Hsome.
   destruct (check_cv O c s v SERVER_CONTEXT_STRING) eqn:Ecv; [inversion H; subst; exact I |].
   apply check_cv_pass in Ecv. destruct Ecv as [Halg Hsig].
-  destruct (negb ((if f_verify c then o_cert_ok O (f_server_name c) (t_peer s) else 0) =? 0)) eqn:Ev;
+  destruct (negb ((if f_verify c then o_cert_ok O (verify_name c) (t_peer s) else 0) =? 0)) eqn:Ev;
     [inversion H; subst; exact I |].
   inversion H; subst o s' out; clear H.
   eapply (cinv_extend c s _ m CLIENT_EXPECT_FINISHED I Hsome); fields; try reflexivity; try discriminate.
